@@ -14,6 +14,7 @@ THEOREMS = [
     "Mtv.C13.registry_matches_api",
     "Mtv.C13.registry_matches_service",
     "Mtv.C13.field_names_match",
+    "Mtv.C13.struct_fields_are_layout",
     "Mtv.C13.tables_valid",
     "Mtv.C13.wrappers_match",
     "Mtv.C13.nothing_extra_partial",
@@ -22,8 +23,9 @@ THEOREMS = [
 RULE = ("programs = rows of the regenerated tables: every definition of schemes/api_latest.tl and schemes/mtproto.tl "
         "(translator validated by printing each back to its source line; id = CRC-32 of the canonical line; parameter "
         "names against the Go field names position by position), every "
-        "registered constructor (reflection over the built tree), every generated client method and hand-written "
-        "wrapper (go/parser). Each row is compared by the Lean kernel (per-chunk decide +kernel obligations); the "
+        "registered constructor (reflection over the built tree: the codec's layout, and every field of the struct with "
+        "its tag as written), every generated client method and hand-written wrapper (go/parser: request literal, call, "
+        "assertion, and the statement skeleton of the body). Each row is compared by the Lean kernel (per-chunk decide +kernel obligations); the "
         "compiled driver names the rows for which an obligation fails. distinct = number of rows")
 
 KINDS = {
@@ -37,8 +39,24 @@ KINDS = {
     "reg": "registered constructor missing from the join table of one of its interfaces / its enum type",
     "methods": "generated client method does not send its function's constructor with arguments in the schema's parameter positions / does not return the declared result kind",
     "wrappers": "hand-written wrapper does not carry the id and layout of its schema line",
+    "skeleton": "the body of the client method is not 'send the request, return its answer' (generated: call; iferr; assert; "
+                "ifnotok-panic; ret - hand-written wrapper: call; iferr; ret-assert): a statement in front of the request (a cached "
+                "copy may answer instead of the server), between the answer and the return, a second request, a missing check",
+    "extra-field": "the registered Go struct has a field the codec's layout (and so the schema definition) does not have "
+                   "(constructor:GoField) - whatever its tag: the encoder skips a field tagged tl:\"-\", the decoder reads it "
+                   "whenever flags bit 0 is set",
+    "field-tag": "the struct tag of the field is not literally the text of its flag (tl:\"flag:N\" / "
+                 "tl:\"flag:N,encoded_in_bitflags\" / none)",
     "extra": "registered type that no schema line defines",
 }
+
+
+def op_of(kind, item):
+    """the failing input as it is written into the replay file"""
+    if kind == "skeleton":  # item = Method:stmt;stmt;...
+        name, _, sk = item.partition(":")
+        return "c13.method %s: skeleton %s" % (name, sk)
+    return "c13.%s %s" % (kind, item)
 
 
 def regen(ctx):
@@ -85,10 +103,12 @@ def run(ctx):
                 continue
             for name in v.split(","):
                 nitems += 1
-                ctx.report_failing_input({"op": "c13.%s %s" % (k, name), "out": "obligation fails for this row", "why": why},
+                ctx.report_failing_input({"op": op_of(k, name), "out": "obligation fails for this row", "why": why},
                                          "row of the regenerated tables named by the driver")
         if rep.get("counts") == "false":
             ctx.report_unexplained("join-table counts no longer check", rep)
+        if rep.get("fieldtable") == "false" and not any(rep.get(k, "-") not in ("-", "") for k in ("extra-field", "field-tag")):
+            ctx.report_unexplained("the table of all struct fields does not line up with the registry (rows, ids)", rep)
         if rep.get("nametable") == "false":
             ctx.report_unexplained("the field-name table is not the registry's (rows, ids, field counts or texts differ)", rep)
         if rep.get("dupids") == "true":
@@ -99,7 +119,7 @@ def run(ctx):
         except ValueError:
             pass
         ctx.samples = [{"row": "inputPeerUser#7b8e7de6 user_id:int access_hash:long = InputPeer  <->  telegram.InputPeerUser{UserID int32; AccessHash int64}"},
-                       {"driver_report": {k: rep.get(k) for k in list(KINDS) + ["counts", "dupids", "nametable", "ndefs", "nreg", "nmethods"]}}]
+                       {"driver_report": {k: rep.get(k) for k in list(KINDS) + ["counts", "dupids", "nametable", "fieldtable", "ndefs", "nreg", "nmethods"]}}]
     concrete = [v for v in ctx.violations if not v.get("no_input")]
     if not ok and not concrete:
         broken = [o for o in ctx.obligations if not o[1]]
@@ -119,7 +139,12 @@ def replay(ctx, path):
     rc = 0
     for op in rep.get("ops", []):
         kind, name = op.split()[0].split(".", 1)[1], op.split()[1]
-        if name in r.get(kind, "").split(","):
+        if kind == "method":  # c13.method <name>: skeleton <stmts>
+            kind = "skeleton"
+            still = [i for i in r.get(kind, "").split(",") if i.partition(":")[0] == name.rstrip(":")]
+        else:
+            still = [i for i in r.get(kind, "").split(",") if i == name]
+        if still:
             print("REPRODUCED: %s still fails: %s" % (op, KINDS.get(kind)))
             rc = 1
     if rc == 0:
